@@ -167,7 +167,19 @@ class Ctx:
 
 def load_known_findings():
     p = os.path.join(VERIF, "known_findings.json")
-    if not os.path.exists(p):
-        return {}
-    with open(p) as fh:
-        return json.load(fh)
+    out = {"findings": [], "fixed": []}
+    if os.path.exists(p):
+        with open(p) as fh:
+            d = json.load(fh)
+        out["findings"] += d.get("findings", [])
+        out["fixed"] += d.get("fixed", [])
+    # work-in-progress drop-ins (merged into known_findings.json before a release of /verif)
+    dd = os.path.join(VERIF, "known_findings.d")
+    if os.path.isdir(dd):
+        for f in sorted(os.listdir(dd)):
+            if f.endswith(".json"):
+                with open(os.path.join(dd, f)) as fh:
+                    d = json.load(fh)
+                out["findings"] += d.get("findings", [])
+                out["fixed"] += d.get("fixed", [])
+    return out
